@@ -1553,7 +1553,8 @@ Outcome check_hist(const Case &c, Stats &st, bool raw) {
 std::vector<std::string> hist_domains(const Tier &t) {
   // the thorough tier also runs the scalar histories on the array domains
   // (their lattice operations wrap the base domain's in non-trivial ways)
-  return domains_with(0, (t.thorough ? 0 : CAP_ARRAY) | CAP_REGION | CAP_BV, !t.thorough);
+  // ... and on the machine-integer domains (BV profile of the mirror)
+  return domains_with(0, (t.thorough ? 0 : (CAP_ARRAY | CAP_BV)) | CAP_REGION, !t.thorough);
 }
 
 // --- C03 / C04: the same engine; C04 histories are denser in lattice queries
@@ -1664,6 +1665,12 @@ Case gen_c05b(Rng &r, const Tier &t, const std::vector<std::string> &doms) {
   const DomainInfo *di = find_domain(c.domain);
   bool large = !(di->caps & CAP_INT64) && r.chance(1, 5);
   OpGen g(r, 2, large, false);
+  if (di->caps & CAP_BV) {
+    static const unsigned ws[] = {4, 8, 8, 8, 16, 32, 32, 64};
+    g.bvw = ws[r.below(8)];
+    g.large = false;
+    c.params.set("bv_width", (long)g.bvw);
+  }
   Json prefix = Json::arr();
   int n = (int)r.range(0, 6);
   for (int i = 0; i < n; i++) {
